@@ -1248,6 +1248,33 @@ impl FatVolume {
         Ok(())
     }
 
+    /// Marks every cluster of the chain starting at `cluster` as free.
+    pub(crate) fn free_cluster_chain<D>(
+        &mut self,
+        block_cache: &mut BlockCache<D>,
+        cluster: ClusterId,
+    ) -> Result<(), Error<D::Error>>
+    where
+        D: BlockDevice,
+    {
+        if cluster.0 < RESERVED_ENTRIES {
+            // no cluster allocated, nothing to do
+            return Ok(());
+        }
+        // free the tail first, then the head
+        self.truncate_cluster_chain(block_cache, cluster)?;
+        self.update_fat(block_cache, cluster, ClusterId::EMPTY)?;
+        if let Some(ref mut number_free_cluster) = self.free_clusters_count {
+            *number_free_cluster += 1;
+        };
+        if let Some(ref mut next_free_cluster) = self.next_free_cluster {
+            if next_free_cluster.0 > cluster.0 {
+                *next_free_cluster = cluster;
+            }
+        }
+        Ok(())
+    }
+
     /// Writes a Directory Entry to the disk
     pub(crate) fn write_entry_to_disk<D>(
         &self,
